@@ -19,6 +19,9 @@ Stale == UNION {{[k |-> "up", op |-> op, kind |-> kd, shapes |-> Plain(n), fault
 \* not a fault either: the destination directory lies on another filesystem (rename(2) answers EXDEV there)
 XDev == UNION {{[k |-> "up", op |-> op, kind |-> kd, shapes |-> Plain(n), fault |-> [kind |-> "xdev", at |-> 0, stage |-> ""]] :
                    op \in {"copy", "move"}, kd \in Kinds} : n \in 0..MaxN}
+\* the destination named by the caller is a regular file, not a directory: the operation must refuse and touch nothing
+DestFile == UNION {{[k |-> "up", op |-> op, kind |-> kd, shapes |-> Plain(n), fault |-> [kind |-> "destfile", at |-> 0, stage |-> ""]] :
+                   op \in {"copy", "move"}, kd \in Kinds} : n \in 0..MaxN}
 \* nor this: the control file was parsed through a relative path and the working directory changed afterwards
 RelPath == UNION {{[k |-> "up", op |-> op, kind |-> kd, shapes |-> Plain(n), fault |-> [kind |-> "relpath", at |-> 0, stage |-> ""]] :
                    op \in Ops, kd \in Kinds} : n \in 0..MaxN}
@@ -39,5 +42,5 @@ Where(ops, k) == IF k = 0 THEN "src" ELSE IF ops[k].op = "remove" THEN "gone" EL
 SeqOK(ops) == \A k \in 1..Len(ops) : Where(ops, k - 1) # "gone" /\ (ops[k].op = "remove" \/ ops[k].to # Where(ops, k - 1))
 OpSeqs == {s \in UNION {[1..m -> OpSet] : m \in 2..3} : SeqOK(s)}
 Seqs == {[k |-> "upseq", kind |-> kd, n |-> n, ops |-> s] : kd \in Kinds, n \in {1, 2}, s \in OpSeqs}
-ASSUME Emit(SetToSeq(AllPlain \cup OneOdd \cup Stale \cup XDev \cup RelPath) \o SetToSeq(Partial) \o SetToSeq(Seqs))
+ASSUME Emit(SetToSeq(AllPlain \cup OneOdd \cup Stale \cup XDev \cup RelPath \cup DestFile) \o SetToSeq(Partial) \o SetToSeq(Seqs))
 =============================================================================
